@@ -86,6 +86,10 @@ macro_rules! buf_get_impl {
 
 // https://en.wikipedia.org/wiki/Sign_extension
 fn sign_extend(val: u64, nbytes: usize) -> i64 {
+    // Reading zero bytes yields zero; the shift below would be by the full width.
+    if nbytes == 0 {
+        return 0;
+    }
     let shift = (8 - nbytes) * 8;
     (val << shift) as i64 >> shift
 }
